@@ -167,12 +167,18 @@ def run(tier, chk):
     ta = irlib.gen_trees(4 if quick else 5, [8], 2, irlib.BIN8, ['-', 'parity'], False, chk)
     run_space(chk, ta, rnd, 8, GRID_Q if quick else GRID_Q + [3, 4, 15, 16, 31, 32, 64, 129, 254, 200], 'a:8bit')
     # rule-targeted spaces: all 5-node trees over operator pairs that occur together in a rewrite rule
+    pairs = []
     for ops in RULE_PAIRS:
         tr = irlib.gen_trees(5, [8], 2, ops, ['-'], False, chk)
         tr = [t for t in tr if EJ.node_count(t) == 5]
         if quick:
             tr = [t for t in tr if rnd.random() < 0.5]
-        run_space(chk, tr, rnd, 8, GRID_Q, 'a:8bit 5 nodes ops=' + ' '.join(ops))
+        if quick:
+            pairs += tr                 # one judge run for all operator pairs (a JVM start per pair costs more than the judging)
+        else:
+            run_space(chk, tr, rnd, 8, GRID_Q, 'a:8bit 5 nodes ops=' + ' '.join(ops))
+    if pairs:
+        run_space(chk, pairs, rnd, 8, GRID_Q, 'a:8bit 5 nodes, operator pairs ' + ' / '.join(' '.join(ops) for ops in RULE_PAIRS))
     if not quick:
         # all 2^16 valuations on every tree of at most 3 nodes
         small = [t for t in ta if EJ.node_count(t) <= 3]
